@@ -301,7 +301,12 @@ def check_text(case, ctx):
                                 v = getattr(v, s[2][1:]) if s[2].startswith(".") else v[int(s[2][1:-1])]
                                 line += format(v, s[3])
                             else:
-                                line += format(v, ">" + format(getattr(r, s[2]), ""))
+                                width = format(getattr(r, s[2]), "")
+                                if width.strip().lstrip("+-").isdigit() and abs(int(width)) > 4096:
+                                    # a width of millions of characters is a resource question, not a rendering one
+                                    ctx.cls("discarded:nested-width-too-large")
+                                    return
+                                line += format(v, ">" + width)
                         except Exception:
                             ctx.cls("undefined:expr-not-applicable")
                             return
@@ -339,7 +344,10 @@ def csv_read_case(draw):
     ncol = draw(st.integers(2, 5))
     nrow = draw(st.integers(2, 6))
     header = draw(st.lists(gen.ident(6), min_size=ncol, max_size=ncol, unique_by=lambda s: s.lower()))
-    rows = [[draw(st.text(SAFE, min_size=1, max_size=8)) for _ in range(ncol)] for _ in range(nrow)]
+    # cells may be empty, and so may every cell of a row (",,"): with two or more columns that is still a data row
+    rows = [[draw(st.text(SAFE, min_size=draw(st.sampled_from([0, 1, 1])), max_size=8)) for _ in range(ncol)] for _ in range(nrow)]
+    for i in draw(st.lists(st.integers(0, nrow - 1), max_size=2)):
+        rows[i] = [""] * ncol
     return {"delim": draw(st.sampled_from([",", ";", "\t", "|"])), "header": header, "rows": rows}
 
 
@@ -364,6 +372,8 @@ def check_csv_read(case, ctx):
         ctx.cls("discarded:sniffer-failed")
         return
     ctx.cls("delim:%r" % case["delim"])
+    if any(not any(r) for r in case["rows"]):
+        ctx.cls("csv-read:row-of-empty-cells")
     ctx.nontriv()
     tmp = ctx.fresh_dir()
     try:
